@@ -22,7 +22,8 @@ LEVEL = 'fault_enumeration'
 RULE = ('each evaluation = one (world, operation, fault site, errno) run: worlds are consistent generated trees '
         '(some with one unreadable listed or stray object), operations are library verify (strict and '
         'keep-going), CLI verify, library update scan+save, CLI update and CLI create, CLI verify/update started on a '
-        'sub-directory that has its own Manifest (discovery walks up through it); fault sites are ALL '
+        'sub-directory that has its own Manifest (discovery walks up through it), and library verify repeated on the '
+        'same loader after the transient fault (tree with one discrepancy: the retry must not succeed); fault sites are ALL '
         'open/os.open/stat/fstat/scandir/scandir-iteration/read calls of the recorded fault-free trace '
         '(exhaustive per world and operation), errnos drawn without replacement from the list (all of '
         'them in the thorough tier); non-trivial = the fault fired; distinct = distinct (event-log digest)')
@@ -35,7 +36,7 @@ ERRNOS = ['EACCES', 'EPERM', 'EIO', 'ENOMEM', 'ELOOP', 'ENOTDIR', 'EMFILE', 'ENF
           'ENAMETOOLONG', 'EBUSY', 'ESTALE', 'EOVERFLOW']
 SITE_KINDS = ('open', 'os.open', 'stat', 'lstat', 'fstat', 'scandir', 'scandir.next', 'read')
 OPS = ['verify', 'verify', 'verify-kg', 'cli-verify', 'update', 'cli-update', 'cli-create', 'verify-sub',
-       'cli-verify-sub', 'cli-verify-sub', 'cli-update-sub']
+       'cli-verify-sub', 'cli-verify-sub', 'cli-update-sub', 'verify-retry', 'verify-retry']
 
 
 def generate(rng, tier, idx):
@@ -57,6 +58,10 @@ def generate(rng, tier, idx):
             sc['sub'] = rng.choice(own)
         else:
             op = sc['op'] = 'cli-verify' if op == 'cli-verify-sub' else 'cli-update'
+    if op == 'verify-retry' and rng.random() < 0.7:
+        # the tree has a discrepancy: a call repeated on the same loader after a transient I/O error must not
+        # succeed either (loader state poisoned by the failed call)
+        sc['muts'] = GT.gen_mutations(rng, info, 1, allow_manifest=True, allow_retype=False)
     if op == 'cli-create':
         sc['manifests'] = []
     if op in ('update', 'cli-update', 'cli-update-sub'):
@@ -78,7 +83,7 @@ def generate(rng, tier, idx):
     return sc
 
 
-def run_op(sc, w, seam, mismatches):
+def run_op(sc, w, seam, mismatches, extra=None):
     """Runs the operation under the seam; returns (call result, cli result or None)."""
     op = sc['op']
     top = os.path.join(w.root, 'Manifest')
@@ -90,6 +95,17 @@ def run_op(sc, w, seam, mismatches):
         seam.begin_op(0)
         if op in ('verify', 'verify-sub'):
             r = call(lambda: ManifestRecursiveLoader(top).assert_directory_verifies(sc.get('sub', '')))
+        elif op == 'verify-retry':
+            box = {}
+
+            def first():
+                box['m'] = ManifestRecursiveLoader(top)
+                return box['m'].assert_directory_verifies('')
+            r = call(first)
+            if extra is not None and 'm' in box:
+                if r[0] != 'ok' and not (r[0] == 'GE'):
+                    # the first call failed with the injected (one-shot) error: same loader, once more
+                    extra['retry'] = call(lambda: box['m'].assert_directory_verifies(''))
         elif op == 'verify-kg':
             r = call(lambda: ManifestRecursiveLoader(top).assert_directory_verifies('', fail_handler=handler))
         elif op == 'cli-verify':
@@ -209,7 +225,8 @@ def execute(sc):
             snap0 = w.snapshot()
             mm = []
             seam = Seam(w.root, order_key=sc['order_key'], virtual_root=True, faults=[plan])
-            r = run_op(sc, w, seam, mm)
+            extra = {}
+            r = run_op(sc, w, seam, mm, extra)
             snap1 = w.snapshot()
         seams.append(seam)
         fired = sum(seam.fired.values())
@@ -244,6 +261,18 @@ def execute(sc):
                      sig='%s:%s' % (r[0], r[1]))
             v['scenario_patch'] = patch
             violations.append(v)
+        if 'retry' in extra and not plan.get('persistent'):
+            r2 = extra['retry']
+            counters['retries_on_the_same_loader'] = counters.get('retries_on_the_same_loader', 0) + 1
+            if r0[0] != 'ok' and r2[0] == 'ok':
+                v = viol('fault.retry-success', 'verification fails without faults (%s:%s); after the transient %s the same call '
+                         'repeated on the same loader reported success' % (r0[0], r0[1], site), sig='retry@%s' % plan['kinds'][0])
+                v['scenario_patch'] = patch
+                violations.append(v)
+            elif r0[0] == 'ok' and r2[0] != 'ok':
+                counters['retry_did_not_recover'] = counters.get('retry_did_not_recover', 0) + 1
+            elif r0[0] == 'ok':
+                counters['retry_recovered'] = counters.get('retry_recovered', 0) + 1
         # never 'absent'
         absent = set(p for p, diff in mm for d in diff if d[0] == '__exists__' and d[2] is False)
         new_absent = absent - base_absent
